@@ -303,6 +303,8 @@ func (u *Universe) KindOfTerm(t Term) (kind int, lexeme string, plusTok bool) {
 		return KSOnly, base + "-only", false
 	case SpLater:
 		return KSLater, base + "-or-later", false
+	case SpLaterPlus:
+		return KSLater, base + "-or-later", true
 	}
 	plusTok = t.Spell == SpPlus
 	switch {
